@@ -348,17 +348,56 @@ inline stim::Circuit gen_qec_circuit(Rng &rng, const QecOpts &o, Stats *st = nul
     int obs_gen = nstab;                              // image of Z_nstab commutes with all of them; used as the logical
     int nanc = nstab;                                 // one ancilla per stabilizer for the ancilla-based variant
     if (nq_out) *nq_out = nd + nanc;
+    // the measured stabilizers and the logical operator, as signed Pauli strings that gates between rounds conjugate
+    std::vector<PauliString<64>> stabs;
+    for (int s = 0; s < nstab; s++) stabs.push_back(PauliString<64>(T.zs[s]));
+    PauliString<64> logical(T.zs[obs_gen % nd]);
+    bool with_gates = rng.chance(0.5);
     auto product_targets = [&](const PauliStringRef<64> &p, bool allow_invert) {
         std::vector<uint32_t> t;
         bool first = true;
+        bool negative = p.sign;
         for (int q = 0; q < nd; q++) {
             uint32_t bits = (p.xs[q] ? TARGET_PAULI_X_BIT : 0) | (p.zs[q] ? TARGET_PAULI_Z_BIT : 0);
             if (!bits) continue;
             if (!first) t.push_back(TARGET_COMBINER);
-            t.push_back((uint32_t)q | bits | ((allow_invert && rng.chance(0.1)) ? TARGET_INVERTED_BIT : 0));
+            bool inv = (allow_invert && rng.chance(0.1));
+            if (first && negative) inv = !inv;   // a negative sign is expressed by inverting one factor
+            t.push_back((uint32_t)q | bits | (inv ? TARGET_INVERTED_BIT : 0));
             first = false;
         }
         return t;
+    };
+    auto add_gates = [&](Circuit &c) {
+        const auto &gc = gate_classes();
+        size_t n = 1 + rng.below(3);
+        for (size_t i = 0; i < n; i++) {
+            std::vector<uint32_t> t;
+            GateType g;
+            if (rng.chance(0.5) || nd < 2) {
+                g = rng.pick(gc.u1);
+                size_t m = 1 + rng.below(2);
+                for (size_t j = 0; j < m; j++) t.push_back((uint32_t)rng.below(nd));
+            } else {
+                g = rng.pick(gc.u2);
+                size_t m = 1 + rng.below(2);
+                uint32_t prev = (uint32_t)rng.below(nd);
+                for (size_t j = 0; j < m; j++) {
+                    // chained pairs: the second pair starts where the first ended
+                    uint32_t a = prev, b = (uint32_t)((a + 1 + rng.below(nd - 1)) % nd);
+                    t.push_back(a);
+                    t.push_back(b);
+                    prev = b;
+                }
+            }
+            std::vector<GateTarget> gt;
+            for (auto x : t) gt.push_back(GateTarget{x});
+            CircuitInstruction inst(g, {}, gt, "");
+            c.safe_append(inst, true);
+            for (auto &sp : stabs) sp = sp.ref().after(inst);
+            logical = logical.ref().after(inst);
+            if (st) st->hit("qec.gate." + std::string(GATE_DATA[g].name));
+        }
     };
     auto prob = [&]() { return o.probs[rng.below(o.probs.size())]; };
     auto add_noise = [&](Circuit &c) {
@@ -383,17 +422,19 @@ inline stim::Circuit gen_qec_circuit(Rng &rng, const QecOpts &o, Stats *st = nul
             }
             if (st) st->hit("qec.noise." + std::to_string(k));
         }
-        if (o.heralded && rng.chance(0.3)) {
-            uint32_t q = (uint32_t)rng.below(nd);
-            if (rng.chance(0.5)) c.safe_append_u("HERALDED_ERASE", {q}, {prob()});
-            else c.safe_append_u("HERALDED_PAULI_CHANNEL_1", {q}, {prob() / 4, prob() / 4, 0.0, prob() / 4});
-        }
+    };
+    // heralded channels append one result per target: a fixed number per round so that lookbacks stay aligned
+    size_t heralds_per_round = (o.heralded && rng.chance(0.5)) ? 1 : 0;
+    auto add_heralded = [&](Circuit &c) {
+        uint32_t q = (uint32_t)rng.below(nd);
+        if (rng.chance(0.5)) c.safe_append_u("HERALDED_ERASE", {q}, {prob()});
+        else c.safe_append_u("HERALDED_PAULI_CHANNEL_1", {q}, {prob() / 4, prob() / 4, 0.0, prob() / 4});
     };
     int style = (int)rng.below(3);  // 0: MPP, 1: ancilla-based (Z-type part only uses CX, general via H/S conjugation is skipped), 2: mixed MPP with measurement noise
     auto measure_round = [&](Circuit &c) -> size_t {
         size_t produced = 0;
         for (int s = 0; s < nstab; s++) {
-            auto t = product_targets(T.zs[s], true);
+            auto t = product_targets(stabs[s].ref(), true);
             std::vector<double> args;
             if (o.measurement_noise && rng.chance(0.3)) args.push_back(prob());
             c.safe_append_u("MPP", t, args);
@@ -408,7 +449,7 @@ inline stim::Circuit gen_qec_circuit(Rng &rng, const QecOpts &o, Stats *st = nul
     c.safe_append_u(rng.chance(0.5) ? "R" : "RX", all);
     if (rng.chance(0.3)) c.safe_append_u("H", {(uint32_t)rng.below(nd)});
     // logical: measured once at the start
-    auto lt = product_targets(T.zs[obs_gen % nd], false);
+    auto lt = product_targets(logical.ref(), false);
     bool has_logical = obs_gen < nd;
     size_t m_since_logical = 0;
     if (has_logical) c.safe_append_u("MPP", lt);
@@ -418,15 +459,17 @@ inline stim::Circuit gen_qec_circuit(Rng &rng, const QecOpts &o, Stats *st = nul
     int rounds = 1 + (int)rng.below(o.max_rounds);
     auto round_body = [&](Circuit &b) {
         add_noise(b);
+        if (with_gates) { add_gates(b); if (rng.chance(0.5)) add_noise(b); }
+        if (heralds_per_round) add_heralded(b);
         if (rng.chance(0.3)) b.safe_append_u("TICK", {});
         measure_round(b);
         for (int s = 0; s < nstab; s++) {
-            std::vector<uint32_t> dt = {TARGET_RECORD_BIT | (uint32_t)(nstab - s), TARGET_RECORD_BIT | (uint32_t)(2 * nstab - s)};
+            std::vector<uint32_t> dt = {TARGET_RECORD_BIT | (uint32_t)(nstab - s), TARGET_RECORD_BIT | (uint32_t)(2 * nstab + heralds_per_round - s)};
             b.safe_append_u("DETECTOR", dt, rng.chance(0.5) ? std::vector<double>{(double)s, 0.0} : std::vector<double>{});
         }
         if (rng.chance(0.3)) b.safe_append_u("SHIFT_COORDS", {}, {0.0, 1.0});
     };
-    if (o.use_repeat && rng.chance(0.5) && rounds >= 2) {
+    if (o.use_repeat && !with_gates && rng.chance(0.5) && rounds >= 2) {
         Circuit body;
         round_body(body);
         c.append_repeat_block((uint64_t)rounds, body, "");
@@ -434,7 +477,7 @@ inline stim::Circuit gen_qec_circuit(Rng &rng, const QecOpts &o, Stats *st = nul
     } else {
         for (int r = 0; r < rounds; r++) round_body(c);
     }
-    m_since_logical += (size_t)rounds * per_round;
+    m_since_logical += (size_t)rounds * (per_round + heralds_per_round);
     if (o.feedback && rng.chance(0.3)) {
         // a Pauli controlled by the last stabilizer measurement, applied to a fresh ancilla that is measured next: deterministic detector
         uint32_t anc = (uint32_t)nd;
@@ -447,6 +490,7 @@ inline stim::Circuit gen_qec_circuit(Rng &rng, const QecOpts &o, Stats *st = nul
     }
     if (has_logical) {
         add_noise(c);
+        lt = product_targets(logical.ref(), false);
         c.safe_append_u("MPP", lt);
         c.safe_append_u("OBSERVABLE_INCLUDE", {TARGET_RECORD_BIT | 1u, TARGET_RECORD_BIT | (uint32_t)(m_since_logical + 2)}, {(double)rng.below(2)});
     }
